@@ -43,6 +43,7 @@ Record RLin (x : xdb) (a : ast) : Prop := {
   ri_hb : x_hasbegin x = r_intx (x_rem x);
   ri_nb : x_hasbegin x = false -> rtx (x_rem x) = [];
   ri_stx : sorted (rtx (x_rem x));
+  ri_dirty : a_dirty a = match x_kvs x with [] => false | _ => true end;
   ri_pend : forall k, get k (pend x) = get k (x_tx x);
   ri_view : forall k, norm (get k (a_loc a)) =
                       norm (match get k (x_tx x) with Some v => Some v | None => rbase (x_rem x) k end) }.
@@ -52,6 +53,7 @@ Record RLout (x : xdb) (a : ast) : Prop := {
   ro_hb : x_hasbegin x = false;
   ro_rintx : r_intx (x_rem x) = false;
   ro_rtx : rtx (x_rem x) = [];
+  ro_dirty : a_dirty a = false;
   ro_view : forall k, norm (get k (a_loc a)) = norm (rbase (x_rem x) k) }.
 
 Definition Rsaved (b : bool) (c : cst) (a : ast) : Prop :=
@@ -208,17 +210,19 @@ Proof.
       eapply nonnil_idem; eauto.
     + intro Hv. rewrite G2. apply h8, Hv.
   - destruct b.
-    + destruct HI as [i1 i2 i3 i4 i5]. constructor; simpl.
+    + destruct HI as [i1 i2 i3 id i4 i5]. constructor; simpl.
       * rewrite G4. exact i1.
       * rewrite Hrtx. exact i2.
       * rewrite Hrtx. exact i3.
+      * exact id.
       * unfold pend in *. simpl. rewrite Hrtx. exact i4.
       * intro k'. rewrite G2. apply i5.
-    + destruct HI as [o1 o2 o3 o4 o5]. constructor; simpl.
+    + destruct HI as [o1 o2 o3 o4 od o5]. constructor; simpl.
       * exact o1.
       * exact o2.
       * rewrite G4. exact o3.
       * rewrite Hrtx. exact o4.
+      * exact od.
       * intro k'. rewrite G2. apply o5.
   - destruct b; simpl in *; auto.
     destruct HV as (st & loc & v1 & v2 & v3 & v4). exists st, loc. repeat split; auto.
@@ -240,7 +244,8 @@ Proof.
   - destruct HS. constructor; simpl; auto.
   - destruct HL as [h1 h2 h3 h4 h5 h6 h7 h8]. constructor; simpl; auto; try congruence.
     apply put_sorted, h7.
-  - destruct HI as [i1 i2 i3 i4 i5]. constructor; simpl; auto.
+  - destruct HI as [i1 i2 i3 id i4 i5]. constructor; simpl; auto.
+    + destruct (x_kvs x); reflexivity.
     + intro k'. unfold pend. simpl. rewrite putall_app. simpl. rewrite !get_put.
       destruct (beqb k' k); [reflexivity|apply i4].
     + intro k'. rewrite !get_put. destruct (beqb k' k); auto.
@@ -257,15 +262,25 @@ Proof.
   unfold rdb_set. rewrite Hi. simpl. repeat split; auto.
 Qed.
 
-(** save() inside a transaction keeps the relation *)
+Notation clean := a_flush.
+
+Lemma RS_clean b s a : RS b s a -> RS b s (clean a).
+Proof. intros [h1 h2 h3]. constructor; simpl; auto. Qed.
+
+Lemma RLc_clean b x a : RLc b x a -> RLc b x (clean a).
+Proof. intros [h1 h2 h3 h4 h5 h6 h7 h8]. constructor; simpl; auto. Qed.
+
+(** save() inside a transaction keeps the relation (the buffer is empty afterwards) *)
 Lemma save_in x a : RLc true x a -> RLin x a ->
-  RLc true (xdb_save x) a /\ RLin (xdb_save x) a /\
+  RLc true (xdb_save x) (clean a) /\ RLin (xdb_save x) (clean a) /\
   (forall k, rbase (x_rem (xdb_save x)) k = rbase (x_rem x) k) /\
   x_kvs (xdb_save x) = [] /\ rtx (x_rem (xdb_save x)) = pend x /\
   x_cache (xdb_save x) = x_cache x /\ x_tx (xdb_save x) = x_tx x.
 Proof.
   intros HL HI. unfold xdb_save. destruct (x_kvs x) as [|e kvs] eqn:Ek.
-  { repeat split; auto; try apply HL; try apply HI. unfold pend. rewrite Ek. reflexivity. }
+  { split; [apply RLc_clean, HL|]. split.
+    - destruct HI as [i1 i2 i3 id i4 i5]. constructor; simpl; auto. rewrite Ek. reflexivity.
+    - repeat split; auto. unfold pend. rewrite Ek. reflexivity. }
   set (r0 := if x_hasbegin x then x_rem x else rdb_begin (x_rem x)).
   assert (H0 : r_intx r0 = true /\ rtx r0 = rtx (x_rem x) /\ r_cache r0 = r_cache (x_rem x) /\
                r_main r0 = r_main (x_rem x)).
@@ -278,13 +293,16 @@ Proof.
   { intro k. unfold rbase. rewrite S2, S3, H3, H4. reflexivity. }
   assert (Hp : rtx (rdb_setall r0 (e :: kvs)) = pend x).
   { rewrite S1, H2. unfold pend. rewrite Ek. reflexivity. }
-  destruct HL as [h1 h2 h3 h4 h5 h6 h7 h8]. destruct HI as [i1 i2 i3 i4 i5].
+  destruct HL as [h1 h2 h3 h4 h5 h6 h7 h8]. destruct HI as [i1 i2 i3 id i4 i5].
   remember (rdb_setall r0 (e :: kvs)) as r1 eqn:Er1.
-  repeat split; simpl; auto; try congruence.
-  - intros k v Hv. rewrite Hb. apply h8, Hv.
-  - rewrite Hp. unfold pend. apply putall_sorted, i3.
-  - intro k. unfold pend at 1. simpl. rewrite Hp. apply i4.
-  - intro k. rewrite Hb. apply i5.
+  split; [|split].
+  - constructor; simpl; auto; try congruence.
+    intros k v Hv. rewrite Hb. apply h8, Hv.
+  - constructor; simpl; auto; try congruence.
+    + rewrite Hp. unfold pend. apply putall_sorted, i3.
+    + intro k. unfold pend at 1. simpl. rewrite Hp. apply i4.
+    + intro k. rewrite Hb. apply i5.
+  - repeat split; auto.
 Qed.
 
 Lemma get_rdb_view r k :
@@ -305,7 +323,7 @@ Proof.
   simpl. destruct b.
   - destruct (save_in x a HL HI) as (L' & I' & Hb & Hk & Hp & Hc & Ht).
     split.
-    + split; [exact HS|split; [exact L'|split; [exact I'|]]].
+    + split; [apply RS_clean, HS|split; [exact L'|split; [exact I'|]]].
       simpl in *. destruct HV as (st & loc & v1 & v2 & v3 & v4). exists st, loc. repeat split; auto.
       intro k. rewrite Hb. apply v4.
     + f_equal. unfold rdb_list. apply list_of_ext.
@@ -313,7 +331,8 @@ Proof.
       * apply (rl_sloc _ _ _ HL).
       * intro k. rewrite get_rdb_view, Hp, (ri_pend _ _ HI), Hb. symmetry. apply (ri_view _ _ HI).
   - unfold xdb_save. rewrite (ro_kvs _ _ HI). split.
-    + exact (conj HS (conj HL (conj HI HV))).
+    + split; [apply RS_clean, HS|split; [apply RLc_clean, HL|split; [|exact HV]]].
+      destruct HI as [o1 o2 o3 o4 od o5]. constructor; simpl; auto.
     + f_equal. unfold rdb_list. apply list_of_ext.
       * apply rdb_view_sorted. apply (rl_smain _ _ _ HL).
       * apply (rl_sloc _ _ _ HL).
@@ -324,13 +343,14 @@ Qed.
 Lemma sim_begin c a : Rfull false c a -> Rfull true (b_begin conc c) (b_begin abs a).
 Proof.
   intros (HS & HL & HI & HV). destruct c as [s x]. simpl in *.
-  destruct HS as [s1 s2 s3]. destruct HL as [h1 h2 h3 h4 h5 h6 h7 h8]. destruct HI as [o1 o2 o3 o4 o5].
+  destruct HS as [s1 s2 s3]. destruct HL as [h1 h2 h3 h4 h5 h6 h7 h8]. destruct HI as [o1 o2 o3 o4 od o5].
   split; [|split; [|split]].
   - constructor; simpl; auto.
     intro k. rewrite s3. unfold sview_tx. rewrite s1. reflexivity.
   - constructor; simpl; auto.
   - constructor; simpl; auto.
     + rewrite o4. exact I.
+    + rewrite o1. reflexivity.
     + intro k. unfold pend. simpl. rewrite o1, o4. reflexivity.
   - exists (a_st a), (a_loc a). simpl. repeat split; auto.
     intro k. rewrite s3. unfold sview_tx. rewrite s1. reflexivity.
@@ -421,6 +441,11 @@ Proof.
     intros k v Hv. rewrite Hb. apply h8, Hv.
   - unfold xdb_rollback. fold r. constructor; simpl; auto.
     intro k. rewrite Hb. apply v4.
+Qed.
+
+Lemma sim_rbok c a : Rfull true c a -> b_rb_ok conc c = b_rb_ok abs a.
+Proof.
+  intros (_ & _ & HI & _). simpl in *. rewrite (ri_dirty _ _ HI). destruct (x_kvs (snd c)); reflexivity.
 Qed.
 
 Lemma sim_starttx b c a : Rfull b c a -> Rfull b (b_starttx conc c) (b_starttx abs a).
